@@ -365,6 +365,11 @@ VARIANTS['C03'] = [
     V('emsg insertion does not mark the moof as moved',
       [(f'{RH}/media_requests.py', "                        atom.children.insert(moof_idx + idx, emsg)\n                        moof_modified = True", "                        atom.children.insert(moof_idx + idx, emsg)")],
       'R03.5', 'generate_media_segment'),
+    V('emsg boxes counted from one past the moof index',
+      [(f'{RH}/media_requests.py', "                    for idx, emsg in enumerate(boxes):\n                        atom.children.insert(moof_idx + idx, emsg)", "                    for idx, emsg in enumerate(boxes, start=moof_idx + 1):\n                        atom.children.insert(idx, emsg)")],
+      'R03.5', 'generate_media_segment'),
+    V('neutral: emsg index counted from the moof index by enumerate',
+      [(f'{RH}/media_requests.py', "                    for idx, emsg in enumerate(boxes):\n                        atom.children.insert(moof_idx + idx, emsg)", "                    for idx, emsg in enumerate(boxes, start=moof_idx):\n                        atom.children.insert(idx, emsg)")]),
     V('tfdt insertion no longer forces trun data_offset',
       [(f'{RH}/media_requests.py', "            traf.trun.flags |= mp4.TrackFragmentRunBox.data_offset_present\n", "")], 'R03.5', 'generate_media_segment'),
     V('second writer after encode',
